@@ -152,18 +152,21 @@ def KeywordLike (k : Kind) : Prop :=
 
 /-- T3 as it is expected to hold: re-lex for every token that is not a keyword-like identifier.  NOT proved in full:
 `relex_partial` below proves it for the token classes `ProvedClass`; the remaining classes (identifiers, keywords,
-literals, parameters, interpolations, comments, ranges, line wraps) are covered by the exhaustive enumeration of
+literals, parameters, interpolations, ranges, line wraps) are covered by the exhaustive enumeration of
 the check only (tested, not proved). -/
 def relex_excluding_keywordlike : Prop :=
   ∀ (src : Src) (toks : List Token), lex src = .ok toks → ∀ t ∈ toks, t.kind ≠ .start → ¬ KeywordLike t.kind →
     lex (byteSlice src t.start t.stop) = .ok [⟨.start, 0, 0⟩, ⟨t.kind, 0, t.stop - t.start⟩]
 
-/-- the token classes for which re-lex is proved: single-character controls, `@`, newlines, multi-character operators -/
+/-- the token classes for which re-lex is proved: single-character controls, `@`, newlines, multi-character operators,
+comments and doc comments -/
 def ProvedClass : Kind → Prop
   | .control _ => True
   | .annotate => True
   | .newLine => True
   | .op _ => True
+  | .comment _ => True
+  | .docComment _ => True
   | _ => False
 
 theorem relex_control_alone : ∀ c ∈ controlChars, lex [c] = .ok [⟨.start, 0, 0⟩, ⟨.control c, 0, utf8Len [c]⟩] := by decide
@@ -196,7 +199,7 @@ theorem relex_partial (src : Src) (toks : List Token) (h : lex src = .ok toks) (
   · simp only at hk; rw [hk] at hc; exact absurd hc (by simp [ProvedClass])
   simp only at htok
   have key := token_inv htok
-  cases hk : t.kind <;> rw [hk] at hc <;> simp only [ProvedClass] at hc <;> rw [hk] at key <;> simp at key
+  cases hk : t.kind <;> rw [hk] at hc <;> simp only [ProvedClass] at hc <;> rw [hk] at key <;> simp [commentKind] at key
   · -- newLine
     have hn := key
     unfold newline at hn
@@ -226,9 +229,15 @@ theorem relex_partial (src : Src) (toks : List Token) (h : lex src = .ok toks) (
   · -- annotate
     have : body = ['@'] := cancel1 key
     subst this; exact relex_annotate_alone
+  · -- comment
+    have := lex_single (comment_alone key); simpa [commentKind] using this
+  · -- doc comment
+    have := lex_single (comment_alone key); simpa [commentKind] using this
 
 example : lex ['a', '|', 'b'] = .ok [⟨.start, 0, 0⟩, ⟨.ident ['a'], 0, 1⟩, ⟨.control '|', 1, 2⟩, ⟨.ident ['b'], 2, 3⟩] ∧
     ProvedClass (Kind.control '|') := ⟨by decide, trivial⟩
+example : lex ['x', ' ', '#', '!', 'd'] = .ok [⟨.start, 0, 0⟩, ⟨.ident ['x'], 0, 1⟩, ⟨.docComment ['d'], 2, 5⟩] ∧
+    ProvedClass (Kind.docComment ['d']) := ⟨by decide, trivial⟩
 example : ¬ KeywordLike (Kind.ident ['x']) := by
   rintro ⟨w, hw, h⟩; cases hw; revert h; decide
 example : KeywordLike (Kind.ident ['t', 'r', 'u', 'e']) := ⟨_, rfl, by decide⟩
